@@ -96,7 +96,7 @@ def rand_fields(rng, widths):
 def fixed_packet(rng, ver, nrec=None, count=None):
     hw, rw = (V5_HDR, V5_REC) if ver == 5 else (V7_HDR, V7_REC)
     if nrec is None:
-        nrec = rng.choice([0, 1, 1, 2, 3, 5, 30])
+        nrec = rng.choice([0, 1, 1, 2, 3, 5, 30, 31, 40])
     h = rand_fields(rng, hw)
     h[0] = nrec if count is None else count
     recs = []
@@ -350,8 +350,19 @@ class Exporter:
         return hdr + body, [d for _, d in sets]
 
 
+def minimal_packet(rng, v):
+    """the shortest valid packet of a version: header only"""
+    if v in (5, 7):
+        return be(v, 2) + be(0, 2) + rng.randbytes(20)
+    if v == 9:
+        return be(9, 2) + be(0, 2) + rng.randbytes(16)
+    return be(10, 2) + be(16, 2) + rng.randbytes(12)
+
+
 def rand_packet(rng, ex, versions=(5, 7, 9, 10)):
     v = rng.choice(versions)
+    if rng.random() < 0.06:
+        return minimal_packet(rng, v), ("V%d" % v if v != 10 else "IPFIX", "minimal")
     if v in (5, 7):
         b, d = fixed_packet(rng, v)
         return b, ("V%d" % v, d)
@@ -388,8 +399,11 @@ class Case:
 
 # ---------------------------------------------------------------- case streams
 
-def conformant_stream(rng, tables, versions=(5, 7, 9, 10), npk=None, parsers=1, allowed=None):
+def conformant_stream(rng, tables, versions=(5, 7, 9, 10), npk=None, parsers=1, allowed=None, few_ids=False):
     ex = [Exporter(rng, tables, True) for _ in range(parsers)]
+    if few_ids:
+        for e in ex:
+            e.ids = [256, 257]
     npk = npk if npk is not None else rng.choice([1, 2, 3, 4, 6, 8])
     ops = []
     pk = []
